@@ -10,3 +10,14 @@ NA = {
  'C09': 'every clause is arithmetic over running delta accumulators along an unbounded fragment stream; no structural necessary condition in reach of static analysis beyond what a unit test asserts (DESIGN.md section 5)',
  'C17': 'compares two code paths of ply over build products (lextab/yacctab modules) that do not exist in the working tree; the repository contributes only argument plumbing (DESIGN.md section 5)',
 }
+
+CHECKS['C04'] = dict(
+    technique='static analysis: grammar twin lint (SEMI/AUTOSEMI), decision tables of Lexer.auto_semi and of the restricted-production rule by abstract evaluation of the function syntax trees over the complete token-type domain, finite exploration of the extracted token-tracking transition function, t_ignore character-set check',
+    text='Decides the clauses of ASI whose truth is in the shape of the code: which productions accept an inserted semicolon, the insertion predicate (exhaustive truth table vs 7.9.1), the restricted-production set, comment transparency of the line-terminator evidence, and that every ES5 line terminator reaches the rule. Does not decide the whole-program equivalence clause (depends on ply error recovery).',
+    ref='DESIGN.md section 3 C04',
+    note='Trusted: CPython ast, the abstract evaluator engine/absint.py (interprets syntax trees over stand-in values; no repository code is imported), ECMA-262 7.9.1 facts embedded in the checker.')
+CHECKS['C05'] = dict(
+    technique='static analysis: terminal adjacency fixpoint of the grammar with role-split reserved words vs the look-behind frozensets; abstract evaluation of the division decision expression and of p_error over token contexts x marker runs',
+    text='Decides the table/grammar agreement exhaustively (94 terminals) and the layout transparency and header-stack behaviour on 700 abstract contexts; the stack discipline for arbitrarily deep nesting is not decided.',
+    ref='DESIGN.md section 3 C05',
+    note='Trusted: CPython ast, abstract evaluator, adjacency fixpoint. The decision expression is located in Lexer._token by a backward slice from the branch that calls _read_regex(); if that shape disappears the check stops with ANALYSIS-ERROR.')
